@@ -253,6 +253,8 @@ def whole_cart(seed, fmt):
         if elide:
             m2 = bytearray(mem)
             cut = [64 * ch.below(100), 128 * ch.below(2), 128 * ch.below(30), 4 * ch.below(60)]
+            if seed[-12] % 3 == 0:
+                cut[3] = 0           # no music at all: the file then ends with the last sfx row
             m2[0x0000 + cut[0]:0x2000] = bytes(0x2000 - cut[0])
             m2[0x3000 + cut[1]:0x3100] = bytes(0x100 - cut[1])
             m2[0x2000 + cut[2]:0x3000] = bytes(0x1000 - cut[2])
